@@ -260,6 +260,17 @@ Definition tbl_vacuum (cfg : KvProto.cfg) (corder : list name) (tb : table) (bef
         bind (delete_historic cfg h3 before) (fun _ => Ret tb')
     end).
 
+(* Vacuum at the level of a bare handle (what s3db.Vacuum does to table.Tree.Root); the handle
+   is replaced by the vacuumed clone only after its commit succeeded *)
+Definition kv_vacuum (cfg : KvProto.cfg) (corder : list name) (h : rhandle) (before : time) : prog row rhandle :=
+  let h1 := vacuum_rows cfg h before in
+  let h2 := kv_remove_tombstones h1 before in
+  bind (commit corder h2) (fun '(h3, r) =>
+    match r with
+    | CFail e => Fail e
+    | COk _ => bind (delete_historic cfg h3 before) (fun _ => Ret h3)
+    end).
+
 (* ---- connection attributes (S3DBConn) ---- *)
 Record conn := {
   c_deadline : option time;
